@@ -196,6 +196,7 @@ def body_factory(ctx):
         f4 = pair["twin"]["prior"]["K"]["kind"] == "fcm" and pair["twin"]["prior"]["P"]["unit"] != "d"
         used_f4 = False
         max_dev = [0.0]
+        unstable = [False]
         # ---- likelihood: constant Jacobian
         for i, (rb, rt) in enumerate(zip(B["rows"], T["rows"])):
             if rb["e"] > 0.99:
@@ -208,6 +209,13 @@ def body_factory(ctx):
             evt2 = og.evaluate(pt, rt, tuple(pt.applicable_flags(rt)))
             tol = (max(og.tol_of(evb), og.tol_of(evb2)) + max(og.tol_of(evt), og.tol_of(evt2)) + 1e-9
                    + 1e-11 * (abs(B["ll"][i]) + abs(T["ll"][i])))
+            if max(og.tol_of(evb), og.tol_of(evb2), og.tol_of(evt), og.tol_of(evt2)) > 1e-2:
+                # the float64 emulation of the kernel's own route is off by an amount visible at this scale (huge prior means /
+                # widths: cancellation inside the kernel): its values are dominated by round-off and two evaluations of
+                # equivalent inputs cannot be expected to agree - counted, not judged (as for the linear draws below)
+                ctx.classes["numerically unstable configuration: likelihood invariance not judged"] += 1
+                unstable[0] = True
+                continue
             d = abs(T["ll"][i] + n * math.log(f) - B["ll"][i])
             max_dev[0] = max(max_dev[0], d)
             if f4:
@@ -231,6 +239,10 @@ def body_factory(ctx):
                             base_units=pb.data_unit, twin_units=pt.data_unit)
         if used_f4:
             ctx.known("F4")
+        if unstable[0]:
+            # acceptance ratios and linear draws of such a configuration are round-off dominated as well: nothing further is judged
+            ctx.note_case(pair, False, ["numerically unstable pair (not judged beyond the stable rows)"])
+            return
         # ---- accepted set with equal seeds
         nlin = pair["n_linear"]
         Pb = B["out"]["P"].to_value(u.day)[::nlin]
